@@ -16,6 +16,7 @@ from . import EXIT_OK, EXIT_VIOLATION, EXIT_INCONCLUSIVE, EXIT_HARNESS
 from .worker import MARK
 
 ROOT = os.path.dirname(os.path.dirname(os.path.abspath(__file__)))
+REPO = os.environ.get("VERIF_REPO", "/repo")
 KF_FILE = os.path.join(ROOT, "known_findings.json")
 
 
@@ -32,7 +33,7 @@ def run_worker(module, ob, mode, part, timeout, args=None, exclude=None):
         cmd += ["--exclude", ",".join(exclude)]
     env = dict(os.environ)
     env["PYTHONDONTWRITEBYTECODE"] = "1"
-    env["PYTHONPATH"] = ROOT + os.pathsep + "/repo"
+    env["PYTHONPATH"] = ROOT + os.pathsep + REPO
     env["PYTHONHASHSEED"] = "0"
     wall = timeout * 2.0 + 120
     t0 = time.time()
@@ -104,8 +105,8 @@ def main(argv=None):
     seed = int(os.environ.get("VERIF_SEED", "0"))
     t_start = time.time()
     sys.path.insert(0, ROOT)
-    if "/repo" not in sys.path:
-        sys.path.insert(1, "/repo")
+    if REPO not in sys.path:
+        sys.path.insert(1, REPO)
     mod = importlib.import_module(modname)
 
     if ns.replay:
